@@ -35,7 +35,7 @@ COMPONENTS = {
     "stub": ["CAN backend (SimBus)", "can.Notifier", "threading.Condition and time inside canopen.nmt (simulator primitives, virtual clock)", "python-can cyclic task (SimCyclicTask)"],
 }
 PROBES = ["cmd-own", "cmd-broadcast", "cmd-other", "undefined-cs", "invalid-name", "bootup-byte", "toggle-bit-set", "wait-hb-returned", "wait-hb-timeout",
-          "wait-bootup-returned", "wait-bootup-timeout", "slave-heartbeat", "stale-heartbeat-before-wait"]
+          "wait-bootup-returned", "wait-bootup-timeout", "slave-heartbeat", "device-bootup-inline", "device-bootup-deferred", "waiters-served", "stale-heartbeat-before-wait"]
 # probes that mark an injected disturbance; the runner also counts them as fired faults in the evidence
 FAULT_PROBES = {'stale-heartbeat-before-wait': 'stale-heartbeat',
  'toggle-bit-set': 'guard-toggle-bit-in-state-byte',
@@ -85,6 +85,9 @@ class W:
             self.model[nid] = 0
             self.mview[nid] = 0
         self.raw = PeerEndpoint(self.ch, "raw")
+        self.dev = None
+        self.dev_delay = 0
+        self.dev_inline = False
 
 
 def state_name(n):
@@ -314,6 +317,105 @@ def _wait(ctx, w):
     ctx.cover(("wait", kind, pattern, exc is None, bool(inside)))
 
 
+def _device_reset(ctx, w):
+    """A device that reboots on a reset command and announces itself with the boot-up
+    message - at once (delivered inside the master's send call, as an inline-delivering
+    back-end or a fast receive thread does) or a little later.  The boot-up message comes
+    after the command, so the master must report PRE-OPERATIONAL afterwards."""
+    if w.dev is None:
+        w.dev = next(n for n in range(1, 128) if n not in (w.own, w.other))
+        w.devnode = canopen.RemoteNode(w.dev, canopen.ObjectDictionary())
+        w.mnet.add_node(w.devnode)
+        ep = PeerEndpoint(w.ch, "device")
+        ep.accept_inline = True
+
+        def handler(can_id, data, rtr, ts):
+            if can_id == 0 and len(data) == 2 and data[1] in (w.dev, 0) and data[0] in (129, 130):
+                ep.send(0x700 + w.dev, b"\x00", delay=w.dev_delay, inline=w.dev_inline)
+        ep.handler = handler
+    w.dev_delay = (0, 0, 100 * US, 3 * MS)[ctx.choice(4, "devdelay")]
+    w.dev_inline = w.dev_delay == 0 and ctx.choice(2, "devinline") == 1
+    cs = (129, 130)[ctx.choice(2, "devcs")]
+    by_name = ctx.choice(2, "devhow") == 1
+    m = w.devnode.nmt
+    old_inline = w.ch.inline_mode
+    w.ch.inline_mode = w.dev_inline
+    ctx.op("master resets device", cs, "by name" if by_name else "by command", "boot-up delay", w.dev_delay, "inline" if w.dev_inline else "deferred")
+
+    def do():
+        if by_name:
+            m.state = "RESET" if cs == 129 else "RESET COMMUNICATION"
+        else:
+            m.send_command(cs)
+    _, exc = call(do)
+    w.ch.inline_mode = old_inline
+    what = "reset command %d to a device that answers with its boot-up message %s" % (
+        cs, "inside the master's send call" if w.dev_inline else "after %.1f ms" % (w.dev_delay / MS))
+    if exc is not None:
+        ctx.violation("C11/nmt-call-raised/%s@%s" % (type(exc).__name__, site(exc)), "%s raised %r" % (what, exc))
+    ctx.run_for(6 * MS)
+    if m.state != "PRE-OPERATIONAL":
+        ctx.violation("C11/master-view", "%s: the master reports %r after the boot-up message, expected 'PRE-OPERATIONAL'" % (what, m.state))
+    ctx.probe("device-bootup-inline" if w.dev_inline else "device-bootup-deferred")
+    ctx.cover(("devreset", cs, by_name, w.dev_inline, w.dev_delay))
+    _check(ctx, w, what)
+
+
+def _mode_t_waiters(ctx):
+    """Mode T, judged: 1..3 caller threads are inside wait_for_heartbeat() / wait_for_bootup()
+    when ONE matching message arrives (nothing else arrives during the waits).  With a single
+    delivery the outcome does not depend on the schedule: every caller must return."""
+    ctx.enable_threads((0, 4)[ctx.choice(2, "policy")])
+    if ctx.choice(2, "stalls"):
+        ctx.stall = lambda: (0, 0, 300 * US, 3 * MS)[ctx.choice(4, "stall")]
+        ctx.fault("slow-task")
+    w = W(ctx)
+    w.ch.ts_quantum = (0, 1 * MS, 100 * MS, -1)[ctx.choice(4, "tsq")]
+    nid = w.own
+    kind = ("hb", "bootup")[ctx.choice(2, "kind")]
+    byte = 0 if kind == "bootup" else (5, 4, 127, 0)[ctx.choice(4, "byte")]
+    nwait = 1 + ctx.choice(3, "nwait")
+    results = [None] * nwait
+    if ctx.choice(2, "earlier"):
+        # an earlier heartbeat, long before anybody waits (same receive timestamp on a coarse driver clock)
+        w.raw.send(0x700 + nid, bytes([byte if kind == "hb" else 5]))
+
+    t_begin = ctx.now
+
+    def producer():
+        ctx.sleep(0.005)
+        w.raw.send(0x700 + nid, bytes([byte]))
+
+    def waiter(i):
+        def body():
+            ctx.sleep(0.001)
+            m = w.r[nid].nmt
+            results[i] = (call(m.wait_for_bootup, 0.2) if kind == "bootup" else call(m.wait_for_heartbeat, 0.2)) + (ctx.now,)
+        return body
+    ctx.spawn("producer", producer)
+    for i in range(nwait):
+        ctx.spawn("waiter%d" % i, waiter(i))
+    ctx.run_tasks()
+    for t in ctx.tasks:
+        if t.exc is not None:
+            raise t.exc
+    for i, (res, exc, t_done) in enumerate(results):
+        what = "Mode T: %d callers in wait_for_%s(0.2), one message %02X after 5 ms (receive timestamps %s)" % (
+            nwait, "bootup" if kind == "bootup" else "heartbeat", byte, {0: "exact", -1: "always 0.0"}.get(w.ch.ts_quantum, "rounded to %d ms" % (w.ch.ts_quantum // MS)))
+        if exc is not None:
+            if isinstance(exc, NmtError):
+                ctx.violation("C11/waiting-caller-not-served/%s/%s" % (kind, "one-waiter" if nwait == 1 else "several-waiters"), "%s: caller %d got %r" % (what, i, exc))
+            ctx.violation("C11/nmt-call-raised/%s@%s" % (type(exc).__name__, site(exc)), "%s: caller %d: %r" % (what, i, exc))
+        if kind == "hb" and res != NAMES[127 if byte == 0 else byte]:
+            ctx.violation("C11/wait-wrong-state", "%s: caller %d got %r" % (what, i, res))
+        # woken BY the message (sent 5 ms after the start), not by the caller's own time-out 200 ms later
+        if t_done - t_begin > 100 * MS:
+            ctx.violation("C11/waiting-caller-woken-late/%s" % ("one-waiter" if nwait == 1 else "several-waiters"),
+                          "%s: caller %d came back after %.1f ms" % (what, i, (t_done - t_begin) / MS))
+    ctx.probe("waiters-served", nwait)
+    ctx.cover(("mode-T-waiters", kind, nwait, w.ch.ts_quantum))
+
+
 def _mode_t_observation(ctx):
     """Mode T, observation only (rule 7): a waiter task in wait_for_bootup() /
     wait_for_heartbeat() and the receive task under the seeded scheduler, frames
@@ -373,8 +475,13 @@ def scenario(ctx):
     b = ctx.choice(30, "b")
     c = ctx.choice(30, "c")
     if mode == 4:
+        if ctx.choice(2, "tkind"):
+            return _mode_t_waiters(ctx)
         return _mode_t_observation(ctx)
     w = W(ctx)
+    if mode == 0:
+        # receive timestamps as a coarse or absent driver clock delivers them
+        w.ch.ts_quantum = (0, 0, 0, 1 * MS, 100 * MS, -1)[ctx.choice(6, "tsq")]
     if mode == 1:
         for x in (a, b, c):
             _command(ctx, w, x % 10, x // 10)
@@ -407,8 +514,10 @@ def scenario(ctx):
     n = 1 + ctx.choice(12, "nsteps")
     for i in range(n):
         with ctx.span("step"):
-            op = ctx.weighted(((6, "cmd"), (3, "assign"), (3, "hb"), (1, "slavehb"), (3, "wait")), "op")
-            if op == "cmd":
+            op = ctx.weighted(((6, "cmd"), (3, "assign"), (3, "hb"), (1, "slavehb"), (3, "wait"), (2, "devreset")), "op")
+            if op == "devreset":
+                _device_reset(ctx, w)
+            elif op == "cmd":
                 _command(ctx, w, ctx.choice(10, "cs"), ctx.choice(3, "tgt"))
             elif op == "assign":
                 _assign(ctx, w)
